@@ -619,7 +619,7 @@ func runPipeCase(rec *trace.Recorder, c *pipeCase, seed int64, free bool, order 
 			},
 			Next: func() []stagepkg.Stage {
 				sc.Yield(owner(s), "next:"+s)
-				if c.NextPanic[s] == 0 {
+				if k, has := c.NextPanic[s]; has && k == 0 {
 					// NextStages() of a stage whose plan succeeded panics: nothing is registered yet
 					rec.Emit("NextPanic", trace.F{"s": s, "k": 0})
 					panic("next kaboom " + s)
@@ -714,7 +714,7 @@ func pipelineMain(args []string) int {
 	maxStages := fs.Int("stages", 5, "max stages per tree")
 	free := fs.Bool("free", false, "free-running (no gates)")
 	orders := fs.Int("orders", 60, "sample of the 630 finishing orders of three concurrent stages")
-	ident := fs.Bool("ident", false, "debug: include the cases with a panicking Identifier() of a next stage")
+	ident := fs.Bool("ident", true, "the cases with a panicking Identifier() of a next stage (the code before the repair 37fa917 hangs in them)")
 	only := fs.String("only", "", "debug: `nextpanic` runs the next-stage panic cases only")
 	_ = fs.Parse(args)
 	rec, err := trace.New(*out)
